@@ -299,6 +299,8 @@ func (r *Reader) run(cg *ConsumerGroup) {
 		l.Printf("entering loop for consumer group, %v\n", r.config.GroupID)
 	})
 
+	var unsubscribed chan struct{} // closed once the readers of the previous generation are gone
+
 	for {
 		// Limit the number of attempts at waiting for the next
 		// consumer generation.
@@ -332,12 +334,24 @@ func (r *Reader) run(cg *ConsumerGroup) {
 
 		r.stats.rebalances.observe(1)
 
+		// the readers of the previous generation must be gone before those of
+		// this one are started: when a generation has already ended by the
+		// time the function below is registered, the consumer group does not
+		// wait for it before handing out the next generation.
+		if unsubscribed != nil {
+			<-unsubscribed
+		}
+
 		r.subscribe(gen.Assignments)
+
+		done := make(chan struct{})
+		unsubscribed = done
 
 		gen.Start(func(ctx context.Context) {
 			r.commitLoop(ctx, gen)
 		})
 		gen.Start(func(ctx context.Context) {
+			defer close(done)
 			// wait for the generation to end and then unsubscribe.
 			select {
 			case <-ctx.Done():
